@@ -156,4 +156,14 @@ theorem C04_text_content_delivered (inner : List Gomjml.Amp.B)
     Gomjml.Passes.cdataDecode (Gomjml.Lines.wrapInner inner) = some (Gomjml.Lines.voidNorm inner) :=
   Gomjml.Lines.wrapInner_delivered inner h
 
+/-- **… and so does content behind a leading CDATA section** (`wrapOutsideCDATA`, the branch repaired in cb901ef): whenever the
+    author's sections are terminated, what the XML layer decodes from what the pass wrote is the author's text
+    (`Lines.authorText`: his CDATA sections opened, every other byte as he wrote it — an escape stays the escape he wrote, a
+    `]]>` outside his sections stays a `]]>`), for every content and any number of sections -/
+theorem C04_text_content_delivered_behind_cdata (inner t : List Gomjml.Amp.B)
+    (h : Gomjml.Passes.cdStart.isPrefixOf (inner.dropWhile Gomjml.Passes.isWs) = true)
+    (ht : Gomjml.Lines.authorText ((Gomjml.Lines.voidNorm inner).length + 1) (Gomjml.Lines.voidNorm inner) = some t) :
+    Gomjml.Lines.dec (Gomjml.Lines.wrapInner inner) = some t :=
+  Gomjml.Lines.wrapInner_delivered_cdata inner t h ht
+
 end Gomjml.Props.C04
